@@ -75,7 +75,7 @@ def run(prog, rep):
     rep.rule("C09.2", "byte accounting: the success path returns the system call's result unchanged; buffer and length reach the call unmodified and without a narrowing conversion")
     rep.rule("C09.3", "sender address: receive_from builds *address from the very sockaddr buffer and length object handed to recvfrom, after the loop only")
     rep.rule("C09.4", "no SIGPIPE: every send/sendto passes MSG_NOSIGNAL, or library initialisation ignores SIGPIPE")
-    rep.rule("C09.5", "errno table: EAGAIN/EWOULDBLOCK map to WOULD_BLOCK and EINPROGRESS to IN_PROGRESS (the codes the retry logic branches on)")
+    rep.rule("C09.5", "errno table: EAGAIN/EWOULDBLOCK map to WOULD_BLOCK, EINPROGRESS and EALREADY (what a connect re-issued after EINTR reports) to IN_PROGRESS - the codes the retry logic branches on")
     rep.rule("C09.6", "connect completion: connected is set only where connect returned 0 or the writability wait and the SO_ERROR check both succeeded; SO_ERROR == 0 decides")
     u = prog.unit("psocket.c")
     pe, pfn, table, default = install_errno_table(prog)
@@ -87,11 +87,15 @@ def run(prog, rep):
     # C09.5
     for (name, val, want, wn) in (("EAGAIN", EAGAIN, WOULD_BLOCK, "P_ERROR_IO_WOULD_BLOCK"),
                                   ("EWOULDBLOCK", EWOULDBLOCK, WOULD_BLOCK, "P_ERROR_IO_WOULD_BLOCK"),
-                                  ("EINPROGRESS", EINPROGRESS, IN_PROGRESS, "P_ERROR_IO_IN_PROGRESS")):
+                                  ("EINPROGRESS", EINPROGRESS, IN_PROGRESS, "P_ERROR_IO_IN_PROGRESS"),
+                                  # connect() interrupted by a signal goes on in the background; the re-issued call then reports EALREADY, which
+                                  # must take the same wait-for-writability-then-SO_ERROR path as EINPROGRESS
+                                  ("EALREADY", 114, IN_PROGRESS, "P_ERROR_IO_IN_PROGRESS")):
         got = table.get(val, default)
         rep.ob("C09.5", pfn, "errno:" + name, got == want, "%s (%d) maps to %s" % (name, val, wn) if got == want else
-               "%s (%d) maps to %s, expected %s (%d)" % (name, val, got, wn, want), pfn.loc[0])
-    rep.floor("C09.5", 3)
+               "%s (%d) maps to %s, expected %s (%d)%s" % (name, val, got, wn, want, ": the connect re-issued after EINTR fails although the connection is still being established"
+                                                          if name == "EALREADY" else ""), pfn.loc[0])
+    rep.floor("C09.5", 4)
 
     # C09.1
     sites = io_sites(u)
@@ -364,6 +368,8 @@ SELFTEST = [
     dict(id="accept-wouldblock-dropped", file="src/psocket.c", expect="C09.1",
          old="\t\t\tsock_err = p_error_get_io_from_system (err_code);\n\n\t\t\tif (socket->blocking && sock_err == P_ERROR_IO_WOULD_BLOCK)\n\t\t\t\tcontinue;\n\n\t\t\tp_error_set_error_p (error,\n\t\t\t\t\t     (pint) sock_err,\n\t\t\t\t\t     err_code,\n\t\t\t\t\t     \"Failed to call accept() on socket\");",
          new="\t\t\tsock_err = p_error_get_io_from_system (err_code);\n\n\t\t\tp_error_set_error_p (error,\n\t\t\t\t\t     (pint) sock_err,\n\t\t\t\t\t     err_code,\n\t\t\t\t\t     \"Failed to call accept() on socket\");"),
+    dict(id="ealready-maps-connected", file="src/perror.c", expect="C09.5", count=1,
+         old="\tcase EALREADY:\n\t\treturn P_ERROR_IO_IN_PROGRESS;", new="\tcase EALREADY:\n\t\treturn P_ERROR_IO_CONNECTED;"),
     dict(id="eagain-maps-failed", file="src/perror.c", expect="C09.5", count=1,
          old="\t/* We have both and they are the same: only emit one case. */\n\tcase EAGAIN:\n\t\treturn P_ERROR_IO_WOULD_BLOCK;",
          new="\t/* We have both and they are the same: only emit one case. */\n\tcase EAGAIN:\n\t\treturn P_ERROR_IO_FAILED;"),
@@ -373,7 +379,7 @@ SELFTEST = [
          old="\t\t\t\t\t     \"Failed to call send() on socket\");\n\n\t\t\treturn -1;\n\t\t}\n\n\t\tbreak;\n\t}\n\n\treturn ret;",
          new="\t\t\t\t\t     \"Failed to call send() on socket\");\n\n\t\t\treturn -1;\n\t\t}\n\n\t\tbreak;\n\t}\n\n\treturn (pssize) buflen;"),
     dict(id="recvfrom-address-buffer-too-small", expect="C09.3", edits=[
-        dict(file="src/psocket.c", old="\tstruct sockaddr_storage sa;\n\tsocklen_t\t\toptlen;\n\tpssize\t\t\tret;", new="\tstruct sockaddr\t\tsa;\n\tsocklen_t\t\toptlen;\n\tpssize\t\t\tret;"),
+        dict(file="src/psocket.c", count=2, old="\tstruct sockaddr_storage sa;\n\tsocklen_t\t\toptlen;\n\tpssize\t\t\tret;", new="\tstruct sockaddr\t\tsa;\n\tsocklen_t\t\toptlen;\n\tpssize\t\t\tret;"),
         dict(file="src/psocket.c", old="\t\t\t\t     (struct sockaddr *) &sa,\n\t\t\t\t     &optlen)) < 0) {", new="\t\t\t\t     &sa,\n\t\t\t\t     &optlen)) < 0) {")]),
     dict(id="recvfrom-wrong-len-object", file="src/psocket.c", expect="C09.3",
          old="\t\t*address = p_socket_address_new_from_native (&sa, optlen);", new="\t\t*address = p_socket_address_new_from_native (&sa, sizeof (sa));"),
